@@ -262,6 +262,88 @@ func runC11(c *bx.Ctx) {
 		}
 	}
 	c11Coinciding(c, kinds)
+	c11RawReportBytes(c, kinds)
+}
+
+// c11RawReportBytes: a RawPacket whose bytes happen to be a report or an SDES is still a RawPacket —
+// the rules speak about the members of the compound (their Go types), and an in-memory compound is
+// judged before anything is put on the wire. Sequences of up to three members with at least one such
+// member; Validate and Marshal against the automaton that classifies it as "other".
+func c11RawReportBytes(c *bx.Ctx, kinds []c11kind) {
+	c.Space("raw-members-carrying-report-bytes")
+	mk := func(p rtcp.Packet) *rtcp.RawPacket {
+		b, _, _ := safeMarshal(p)
+		r := rtcp.RawPacket(append([]byte{}, b...))
+		return &r
+	}
+	var sdes rtcp.Packet
+	for _, k := range kinds {
+		if k.isSDES && k.hasCN && sdes == nil {
+			sdes = k.p
+		}
+	}
+	ks := append([]c11kind{}, kinds...)
+	first := len(ks)
+	ks = append(ks,
+		c11kind{name: "Raw(RR-bytes)", p: mk(&rtcp.ReceiverReport{SSRC: 0xb1})},
+		c11kind{name: "Raw(SR-bytes)", p: mk(&rtcp.SenderReport{SSRC: 0xb2, NTPTime: 3})},
+		c11kind{name: "Raw(SDES-cname-bytes)", p: mk(sdes)},
+		c11kind{name: "Raw(80c90000)", p: func() rtcp.Packet { r := rtcp.RawPacket{0x80, 201, 0, 0}; return &r }()},
+	)
+	var rec func(idx []int)
+	rec = func(idx []int) {
+		hasRaw := false
+		for _, k := range idx {
+			if k >= first {
+				hasRaw = true
+			}
+		}
+		if hasRaw && c.Mine() {
+			seq := make(rtcp.CompoundPacket, len(idx))
+			names := ""
+			allMarshal := true
+			for i, k := range idx {
+				seq[i] = ks[k].p
+				names += ks[k].name + " "
+				if ks[k].bad {
+					allMarshal = false
+				}
+			}
+			valid := false
+			if ks[idx[0]].isSR || ks[idx[0]].isRR {
+				for _, k := range idx[1:] {
+					if ks[k].isRR {
+						continue
+					}
+					valid = ks[k].isSDES && ks[k].hasCN
+					break
+				}
+			}
+			var verr, merr error
+			msg, pan := bx.Guard(func() { verr = seq.Validate(); _, merr = seq.Marshal() })
+			c.T(2)
+			rp := func(entry, exp, obs string) bx.Replay { return bx.Replay{Entry: entry, Ops: names, Expected: exp, Observed: obs} }
+			switch {
+			case pan:
+				c.Report("C11/raw-report-bytes/panic", "Validate / Marshal panics on a compound with a RawPacket member", rp("Validate", "result", msg))
+			case (verr == nil) != valid:
+				c.Report(keyJoin("C11/raw-report-bytes/Validate", fmt.Sprint("expected-valid=", valid)), "Validate treats a RawPacket member as the packet its bytes would decode to", rp("Validate", fmt.Sprint("valid=", valid), fmt.Sprint(verr)))
+			case (merr == nil) != (valid && allMarshal):
+				c.Report(keyJoin("C11/raw-report-bytes/Marshal", fmt.Sprint("expected-ok=", valid && allMarshal)), "CompoundPacket.Marshal succeeds/fails against Validate for a compound with a RawPacket member", rp("Marshal", fmt.Sprint("ok=", valid && allMarshal), fmt.Sprint(merr)))
+			default:
+				c.NT()
+			}
+		}
+		if len(idx) == 3 {
+			return
+		}
+		for k := range ks {
+			rec(append(append([]int{}, idx...), k))
+		}
+	}
+	for k := range ks {
+		rec([]int{k})
+	}
 }
 
 // c11RefCNAME reads the documented answer off a compound: the text of the first CNAME item of the first
